@@ -94,7 +94,7 @@ def run(ctx):
     if os.path.exists(side_path):
         os.remove(side_path)
     if K.build_hx(ctx) and K.build_drv(ctx):
-        args = ["%s=%s" % (k, facts.get(k, "unknown")) for k in DRV_FACTS]
+        args = S.drv_args(facts)
         try:
             c = K.correspondence(ctx, "C04", args, hx_env={"HX_C04_SIDE": side_path}, timeout=900)
         except Exception as e:  # a hung generator/run is a finding about the code, not a machinery error
